@@ -130,6 +130,10 @@ def generate(rng, tier: str, index: int) -> dict:
         # the last neighbor belongs to a second helper process (`api { processes [ h2 ]; }`) that stays silent: whatever the
         # first helper writes - `peer *`, a selector naming it, a group - must leave it alone
         nbrs[-1]['svc'] = 'h2'
+    if rng.chance(0.3):
+        # one neighbor's peer refuses every connection: commands naming it are still served (its RIB changes), and what needs
+        # an established session (`announce eor`) fails with one `error`
+        rng.choice(nbrs)['down'] = True
     variants = RW.gen_variants(rng, 3)
     prefixes = rng.sample(RW.API_PREFIXES, 4)
     cmds = []
@@ -159,8 +163,10 @@ def generate(rng, tier: str, index: int) -> dict:
                 bad = rng.choice([f'announce route 10.78.{len(cmds) % 250}.0/24 med 100', f'announce route 10.78.{len(cmds) % 250}.0/33 next-hop 10.0.0.9', f'frobnicate route 10.78.{len(cmds) % 250}.0/24 next-hop 10.0.0.9'])
                 subs.insert(rng.randint(0, len(subs)), {'op': 'bad', 'text': bad})
             cmds.append({'k': rng.choice(['group', 'group', 'mgroup']), 'sel': gen_selector(rng, nbrs), 'subs': subs})
-        elif r < 0.94:
+        elif r < 0.93:
             cmds.append({'k': 'long', 'n': rng.choice([5000, 20000, 70000])})
+        elif r < 0.96:
+            cmds.append({'k': 'eor', 'sel': gen_selector(rng, nbrs), 'fam': rng.choice(['ipv4 unicast', 'ipv4 unicast', 'ipv6 unicast', 'ipv4 flow'])})
         else:
             cmds.append({'k': 'blank'})
     chunks = [rng.choice([1, 2, 3, 5, 7, 16, 40, 100, 1000, 16384]) for _ in range(rng.randint(0, 200))]
@@ -268,6 +274,12 @@ def build_commands(plan: dict):
                 effects = [(i, s['op'], s['route']) for s in good for i in sel]
             else:
                 expect = 'error'
+        elif k == 'eor':
+            sel = selected(c['sel'], nbrs)
+            text = f'peer {sel_text(c["sel"])} announce eor {c["fam"]}'
+            # with an established session among the selected: `done` (or `error` while it is still coming up); with none: `error`.
+            # Always exactly one terminal reply, and never a change to a RIB
+            expect = 'error' if not [i for i in sel if not nbrs[i].get('down')] else None
         elif k == 'long':
             text = 'peer * announce route ' + 'x' * c['n']
             expect = 'error'
@@ -290,6 +302,8 @@ def execute(plan: dict) -> dict:
     confs = []
     for nb in nbrs:
         speakers.append(Speaker(w, f'p{nb["idx"]}', nb['peer_ip'], nb['peer_as'], f'10.9.0.{nb["idx"] + 1}', local_of(nb), hold=90, caps=speaker_caps({'asn': nb['peer_as']})))
+        if nb.get('down'):
+            speakers[-1].accept_mode = 'refuse'
         confs.append(
             {
                 'peer_ip': nb['peer_ip'], 'local_ip': local_of(nb), 'local_as': nb['local_as'], 'peer_as': nb['peer_as'], 'router_id': nb['router_id'], 'hold': 90,
